@@ -230,6 +230,8 @@ var detTemplates = []detTemplate{
 	{name: "reformat-phyloxml", args: []string{"reformat", "phyloxml", "-i", "@trees.nw", "--seed", "@SEED", "-o", "@OUT"}},
 	{name: "reformat-newick-from-nexus", args: []string{"reformat", "newick", "-i", "@trees.nx", "-f", "nexus", "--seed", "@SEED", "-o", "@OUT"}},
 	{name: "consensus", args: []string{"compute", "consensus", "-i", "@trees.nw", "-f", "0.5", "--seed", "@SEED", "-o", "@OUT"}},
+	{name: "reroot-midpoint-big", args: []string{"reroot", "midpoint", "-i", "@big.nw", "--seed", "@SEED", "-o", "@OUT"}},
+	{name: "stats-big", args: []string{"stats", "-i", "@big.nw", "--seed", "@SEED", "-o", "@OUT"}},
 	{name: "bipartitiontree-repeated-names", args: []string{"compute", "bipartitiontree", "-i", "@one.nw", "-f", "@tips.txt", "t3", "t0", "t5", "t3", "--seed", "@SEED", "-o", "@OUT"}},
 	{name: "bipartitiontree-names-only", args: []string{"compute", "bipartitiontree", "-i", "@one.nw", "t4", "t1", "t2", "--seed", "@SEED", "-o", "@OUT"}},
 	{name: "bipartitiontree", args: []string{"compute", "bipartitiontree", "-i", "@one.nw", "-f", "@tips.txt", "--seed", "@SEED", "-o", "@OUT"}},
@@ -285,7 +287,7 @@ func init() {
 	Register(&thr)
 }
 
-func genDetFiles(rt *rapid.T) map[string]string {
+func genDetFiles(rt *rapid.T, withBig bool) map[string]string {
 	r := rapidRnd{rt}
 	files := map[string]string{}
 	ntax := rapid.IntRange(6, 9).Draw(rt, "ntax")
@@ -401,6 +403,11 @@ func genDetFiles(rt *rapid.T) map[string]string {
 	files["tips.txt"] = "t0\nt2\nt3\n"
 	files["groups.txt"] = "t0,n0a,n0b\nt3,n3a\n"
 	files["annot.txt"] = "anc1:t0,t1\nanc2:t2,t3,t4\n"
+	// more than a thousand tips: code paths meant for large inputs
+	files["big.nw"] = "(a,b,c);\n"
+	if withBig {
+		files["big.nw"] = bigTreeText(int64(rapid.IntRange(1, 1<<30).Draw(rt, "bigseed")), rapid.SampledFrom([]int{1001, 1025}).Draw(rt, "bigsize"), false) + "\n"
+	}
 	// a Nextstrain export without the "aa" label: mutations of several genes on the same branch
 	files["ns.json"] = `{"version":"v2","meta":{"title":"t"},"tree":{"name":"NODE_0","node_attrs":{"div":0},"children":[` +
 		`{"name":"t0","node_attrs":{"div":1.5},"branch_attrs":{"mutations":{"nuc":["A1T","C22G"],"S":["D614G"],"ORF1a":["T265I","P4715L"],"N":["R203K","G204R"],"E":["P71L"],"M":["I82T"]}}},` +
@@ -435,7 +442,7 @@ func genC18(rt *rapid.T, tier string) any {
 		// the templates whose code ranges over maps or runs worker pools are drawn more often (the first 25 of the list)
 		c.Template = detTemplates[rapid.IntRange(0, 24).Draw(rt, "ptemplate")].name
 	}
-	c.Files = genDetFiles(rt)
+	c.Files = genDetFiles(rt, strings.HasSuffix(c.Template, "-big"))
 	c.Seed = rapid.IntRange(0, 1000).Draw(rt, "seed")
 	c.Threads = rapid.SampledFrom([]int{1, 2, 3, 4}).Draw(rt, "threads")
 	c.SeamA, c.SeamB = genSeam(rt, "a"), genSeam(rt, "b")
